@@ -270,7 +270,10 @@ def check(case: dict[str, Any], rec: Any) -> None:
                     if adv != enf and abs(adv - enf) <= tau and abs(p - adv) <= tau:
                         sliver = True
                 if sliver:
-                    rec.count("on-bound-probe-in-ulp-sliver")
+                    # the quantifier names the powers *on* each advertised bound: a bound that the distributor
+                    # computes one ulp away from the advertised one rejects exactly those
+                    rec.violation("rejected-on-an-advertised-bound(enforced bound differs in the last ulp)",
+                                  {**w, "enforced": [b.inclusion_lower, b.exclusion_lower, b.exclusion_upper, b.inclusion_upper]})
                 else:
                     rec.violation("rejected-inside-advertised-bounds", w)
             else:
